@@ -105,3 +105,73 @@ func Block(preHash []byte, nonce int32, txs []*pb.Transaction) *pb.InternalBlock
 	b.Blockid = id
 	return b
 }
+
+// ObserveLedger reads the ledger's answers about the given block and tx ids
+// through the public API, rendered as comparable strings.
+func ObserveLedger(l *ledger.Ledger, blockIDs [][]byte, txIDs [][]byte) []string {
+	m := l.GetMeta()
+	out := []string{"tip=" + string(m.TipBlockid), "root=" + string(m.RootBlockid), "height=" + string([]byte{byte('0' + m.TrunkHeight)})}
+	for _, id := range blockIDs {
+		s := "blk[" + string(id) + "]:"
+		if !l.ExistBlock(id) {
+			out = append(out, s+"absent")
+			// a header the storage does not hold must not be served from a cache either
+			if _, err := l.QueryBlockHeader(id); err == nil {
+				out = append(out, s+"header-served-without-block")
+			}
+			continue
+		}
+		b, err := l.QueryBlockHeader(id)
+		if err != nil {
+			out = append(out, s+"header-error")
+			continue
+		}
+		s += "h=" + string([]byte{byte('0' + b.Height)})
+		if b.InTrunk {
+			s += ",trunk"
+		}
+		s += ",next=" + string(b.NextHash) + ",pre=" + string(b.PreHash)
+		full, err := l.QueryBlock(id)
+		if err != nil {
+			s += ",body-error"
+		} else {
+			s += ",txs=" + string([]byte{byte('0' + len(full.Transactions))})
+			if full.InTrunk != b.InTrunk || string(full.NextHash) != string(b.NextHash) {
+				s += ",body-disagrees-with-header"
+			}
+		}
+		out = append(out, s)
+	}
+	for h := int64(0); h <= m.TrunkHeight+1; h++ {
+		b, err := l.QueryBlockByHeight(h)
+		if err != nil {
+			out = append(out, "byheight["+string([]byte{byte('0' + h)})+"]=none")
+		} else {
+			out = append(out, "byheight["+string([]byte{byte('0' + h)})+"]="+string(b.Blockid))
+		}
+	}
+	for _, id := range txIDs {
+		s := "tx[" + string(id) + "]:"
+		t, err := l.QueryTransaction(id)
+		if err != nil {
+			out = append(out, s+"absent")
+			continue
+		}
+		s += "blk=" + string(t.Blockid)
+		if l.IsTxInTrunk(id) {
+			s += ",trunk"
+		}
+		out = append(out, s)
+	}
+	return out
+}
+
+// SameStrings compares two observation lists.
+func SameStrings(a, b []string, assert func(bool, string), label string) {
+	assert(len(a) == len(b), label)
+	if len(a) == len(b) {
+		for i := range a {
+			assert(a[i] == b[i], label)
+		}
+	}
+}
